@@ -95,6 +95,7 @@ theorem writeThrough_congr {a b : FS} (h : Equiv a b) (fuel : Nat) (p : Path) (c
     simp only [writeThrough, h p]
     split
     · exact ih _
+    · exact h
     · exact set_congr h _ _
 
 theorem fetchIsOk_congr {a b : FS} (h : Equiv a b) (srcDir : Path) (pfx : Nat) :
